@@ -332,47 +332,56 @@ def run(ctx):
         isinstance(c_, ast.Call) and norm(c_.func) == "block.add" for c_ in ast.walk(n))]
     if len(sl) != 1:
         ctx.broken("parse_block", "statement loop not found")
-    g4 = CFG(_as_func(sl[0].body), implicit_exc=False)
     from ..facts import must_facts as _mf4, split_test as _st4
-    f4 = _mf4(g4)
-    n_semi = 0
-    for node in g4.nodes:
-        a = node.ast
-        if a is None or node.kind == "for":
-            continue
-        for x in ast.walk(a):
-            if isinstance(x, ast.Call) and norm(x.func) == "lexer.match" and x.args and norm(x.args[0]) == "';'":
-                have = set(f4.get(node.id, frozenset()))
-                for t_, pol_ in list(have):
-                    et = expand(t_)
-                    if et != t_:
+
+    def semi_rule(loop_, required_, label_):
+        # the loop test holds at the top of the body (the keywords it excludes are excluded until a token is consumed)
+        g4 = CFG(_as_func(loop_.body), implicit_exc=False)
+        f4 = _mf4(g4)
+        n_semi = 0
+        for node in g4.nodes:
+            a = node.ast
+            if a is None or node.kind == "for":
+                continue
+            for x in ast.walk(a):
+                if isinstance(x, ast.Call) and norm(x.func) == "lexer.match" and x.args and norm(x.args[0]) == "';'":
+                    have = set(f4.get(node.id, frozenset()))
+                    for t_, pol_ in list(have):
+                        et = expand(t_)
+                        if et != t_:
+                            try:
+                                have |= _st4(ast.parse(et, mode="eval").body, pol_)
+                            except SyntaxError:
+                                pass
+                    excluded = set()
+                    for t_, pol_ in have:
+                        if pol_:
+                            continue
                         try:
-                            have |= _st4(ast.parse(et, mode="eval").body, pol_)
+                            e_ = ast.parse(t_, mode="eval").body
                         except SyntaxError:
-                            pass
-                excluded = set()
-                for t_, pol_ in have:
-                    if pol_:
-                        continue
-                    try:
-                        e_ = ast.parse(t_, mode="eval").body
-                    except SyntaxError:
-                        continue
-                    if isinstance(e_, ast.Call) and norm(e_.func) == "lexer.peekn" and len(e_.args) >= 2 \
-                            and norm(e_.args[0]) == "1" and isinstance(e_.args[1], ast.Constant):
-                        excluded.add(e_.args[1].value)
-                    elif isinstance(e_, ast.Call) and norm(e_.func) == "lexer.peekOne" and len(e_.args) >= 2 \
-                            and norm(e_.args[0]) == "1" and isinstance(e_.args[1], (ast.List, ast.Tuple)):
-                        excluded |= {x_.value for x_ in e_.args[1].elts if isinstance(x_, ast.Constant)}
-                missing = [kw for kw in ("end", "catch", "finally") if kw not in excluded]
-                n_semi += 1
-                ctx.check("C14.sep", pb, x, not missing,
-                          f"in a block a ';' is demanded after a statement although {missing} may follow: the optional "
-                          f"';' of the last statement becomes mandatory before {' / '.join(missing)}",
-                          expr="statement section: ';' optional before end / catch / finally",
-                          site="parse_block: ';' demanded only when no end / catch / finally follows")
-    if n_semi == 0:
-        ctx.broken("parse_block", "no `lexer.match(';')` in the statement loop")
+                            continue
+                        if isinstance(e_, ast.Call) and norm(e_.func) == "lexer.peekn" and len(e_.args) >= 2 \
+                                and norm(e_.args[0]) == "1" and isinstance(e_.args[1], ast.Constant):
+                            excluded.add(e_.args[1].value)
+                        elif isinstance(e_, ast.Call) and norm(e_.func) == "lexer.peekOne" and len(e_.args) >= 2 \
+                                and norm(e_.args[0]) == "1" and isinstance(e_.args[1], (ast.List, ast.Tuple)):
+                            excluded |= {x_.value for x_ in e_.args[1].elts if isinstance(x_, ast.Constant)}
+                    missing = [kw for kw in required_ if kw not in excluded]
+                    n_semi += 1
+                    ctx.check("C14.sep", pb, x, not missing,
+                              f"in a block a ';' is demanded after a statement although {missing} may follow: the optional "
+                              f"';' of the last statement becomes mandatory before {' / '.join(missing)}",
+                              expr=f"{label_}: ';' optional before {' / '.join(required_)}",
+                              site=f"parse_block: {label_}: ';' demanded only when no {' / '.join(required_)} follows")
+        if n_semi == 0:
+            ctx.broken("parse_block", f"no `lexer.match(';')` in the {label_} loop")
+
+    semi_rule(sl[0], ("end", "catch", "finally"), "statement section")
+    if len(fin) == 1 and len(lp) == 1:
+        semi_rule(lp[0], ("end",), "finally section")
+    else:
+        ctx.broken("parse_block", "finally-section loop not found")
 
     # a token's text alone never decides: a string literal can carry any text ('not', 'end', '=='), so every test of
     # <token>.value against a literal comes with a test of the same token's type
